@@ -30,6 +30,44 @@
 #include "node_type.hpp"
 #include "portability_builtins.hpp"
 
+#ifdef UNODB_DETAIL_VERIF_FIXED_ITER_STACK
+#include <cstdlib>
+#include <new>
+namespace unodb::detail {
+/// Verification hook (off by default): fixed-capacity stand-in for the
+/// `std::stack` that backs the index iterators, so that bounded checkers do not
+/// have to execute `std::deque` internals.  Exceeding the capacity aborts.
+template <class T, std::size_t N = UNODB_DETAIL_VERIF_FIXED_ITER_STACK>
+class verif_fixed_stack final {
+ public:
+  [[nodiscard]] bool empty() const noexcept { return n_ == 0; }
+  [[nodiscard]] std::size_t size() const noexcept { return n_; }
+  void push(const T& v) noexcept {
+    if (n_ >= N) std::abort();
+    new (buf_ + n_ * sizeof(T)) T(v);
+    ++n_;
+  }
+  void pop() noexcept {
+    if (n_ == 0) std::abort();
+    --n_;
+  }
+  [[nodiscard]] T& top() noexcept {
+    if (n_ == 0) std::abort();
+    return *std::launder(reinterpret_cast<T*>(buf_ + (n_ - 1) * sizeof(T)));
+  }
+  [[nodiscard]] const T& top() const noexcept {
+    if (n_ == 0) std::abort();
+    return *std::launder(
+        reinterpret_cast<const T*>(buf_ + (n_ - 1) * sizeof(T)));
+  }
+
+ private:
+  alignas(T) std::byte buf_[N * sizeof(T)]{};
+  std::size_t n_{0};
+};
+}  // namespace unodb::detail
+#endif  // UNODB_DETAIL_VERIF_FIXED_ITER_STACK
+
 namespace unodb::detail {
 
 template <class, class>
